@@ -49,9 +49,13 @@ def run(ctx):
         o = out[i]
         bad = [e for e in o['ev'] if e['e'] == 'After' and not e['contacted'] and e['hv'] >= 0 and (not e['intact'] or not e['complete'])]
         shape = 'mixed-content-after-kill' if any(not e['intact'] for e in bad) else ('truncated-as-hit-after-kill' if bad else 'other')
-        stored = {e['v'] for e in o['ev'] if e['e'] == 'Stored'}
-        # the mixed answer carries the header of a version whose swap-out was cut by the kill while an older version of the same key was on disk
-        unfinished = bool(bad) and all(e['hv'] not in stored and any(x['e'] == 'Stored' and x['key'] == e['key'] for x in o['ev']) for e in bad)
+        # the mixed answer carries the header of the LAST version produced for that key before the kill (its slot writes - which
+        # are asynchronous to the delivery to the client - were cut by the kill) while an older version of the key was on disk
+        def last_overwrite(e):
+            stop = next((j for j, x in enumerate(o['ev']) if x['e'] == 'Stop'), len(o['ev']))
+            prod = [x['v'] for x in o['ev'][:stop] if x['e'] == 'Produced' and x['key'] == e['key']]
+            return len(prod) >= 2 and e['hv'] == prod[-1]
+        unfinished = bool(bad) and all(last_overwrite(e) for e in bad)
         cls = {'store': o['kind'], 'shape': shape, 'header_of_unfinished_overwrite': unfinished}
         if json.dumps(cls) in seen:
             ctx.add('rejections_of_reported_classes')
